@@ -1,0 +1,28 @@
+//go:build verif
+
+package http
+
+// VerifMuxTables returns a snapshot of the private tables of the default
+// Muxer implementation taken under its own lock: the wildcard name table and
+// the number of middlewares still waiting to be registered (-1 once the
+// first handler has been mounted). It is only compiled with the "verif" build
+// tag and is used by runtime monitors to check that the tables are no longer
+// written once serving has started. ok is false if m is not the default
+// implementation.
+func VerifMuxTables(m Muxer) (wildcards map[string]string, pendingMiddlewares int, ok bool) {
+	mx, isMux := m.(*mux)
+	if !isMux {
+		return nil, 0, false
+	}
+	mx.mu.Lock()
+	defer mx.mu.Unlock()
+	wildcards = make(map[string]string, len(mx.wildcards))
+	for k, v := range mx.wildcards {
+		wildcards[k] = v
+	}
+	pendingMiddlewares = -1
+	if mx.middlewares != nil {
+		pendingMiddlewares = len(mx.middlewares)
+	}
+	return wildcards, pendingMiddlewares, true
+}
